@@ -36,7 +36,9 @@ AllKinds == << "nil", "bool", "int", "int_neg", "int8", "int64", "uint", "uint8"
                \* interface; two struct types that print the same name with the field Name at index 3 and at index 0
                "func_ptrhc", "func_embhc", "func_bigifacehc", "slice_stringer1", "map_str_error", "map_stringer_int", "twin_big", "twin_small",
                \* functions that return NO value (any number of arguments); a struct with such a method (Touch)
-               "func_void", "func_void_variadic" >>
+               "func_void", "func_void_variadic",
+               \* structs (and a pointer to one) that promote String() / HTML() from an embedded pointer / interface that is nil
+               "struct_embeds_nil_time", "struct_embeds_nil_stringer", "struct_embeds_nil_htmler", "ptr_struct_embeds_nil_duration" >>
 \* a smaller set for the third variable of three-variable forms
 ValueKinds == << "nil", "int", "str", "float64", "bool", "slice_any", "map_str_any", "struct", "ptr_struct", "func0" >>
 KindSet(s) == {s[i] : i \in 1..Len(s)}
